@@ -92,7 +92,7 @@ def run(chk, replay=None):
     leafs = ("x", "y", "z") if tier == "thorough" else ("x", "y")
     with ThreadPoolExecutor(max_workers=4) as ex:
         f_main = ex.submit(tlc.run, "ExprOps_MC", X.class_cfg(sigs, leafs=leafs, max_ops=1), workers=3, fast_start=False, timeout=1700)
-        f_cov = ex.submit(tlc.run, "ExprOps_MC", X.class_cfg(sigs, init="ClassInitD1", leafs=("x", "y")), workers=1, coverage=True, timeout=600)
+        f_cov = ex.submit(tlc.run, "ExprOps_MC", X.class_cfg(sigs, init="ClassInitD1", leafs=("x", "y"), full_quantification=True), workers=1, coverage=True, timeout=600)
         f_dev = ex.submit(tlc.run, "ExprOps_MC", X.class_cfg(sigs, dev="DevDeepAstuple", leafs=("x", "y"), outer=["A21e"], inner=["B10e"]), workers=1, timeout=600)
         f_two = ex.submit(tlc.run, "ExprOps_MC", X.class_cfg(sigs, init="ClassInitD1", leafs=("x", "y"), max_ops=2), workers=1, timeout=1700) if tier == "thorough" else None
         res, cov, dev = f_main.result(), f_cov.result(), f_dev.result()
@@ -126,6 +126,7 @@ def run(chk, replay=None):
              time_limits_hit=getattr(rep, "timeouts", 0), not_constructible=rep.skipped_not_constructible,
              steps_skipped_because_two_slots_hold_one_class=getattr(rep, "aliased_steps", 0),
              unfolded_expressions_recanonicalised_by_sympy_on_pickle_or_rebuild=getattr(rep, "recanonicalised", 0),
+             helper_objects_whose_derived_part_differs_from_direct_construction=getattr(rep, "derived_part_differs", 0),
              neighbour_pairs=rep.eq_pairs, pickle_round_trips_in_process=rep.pickled, tlc_simulate_s=round(t_sim, 1),
              wall_s=round(time.time() - t0, 1), **info)
     missing = sorted({e.name for e in embs} - rep.covered_outer)
